@@ -52,6 +52,20 @@ CHECKS = [
              'block() identities (norm additivity, steps == once, contraction = sum of parts, unfuse refuses) incl. parts with '
              'hard-fused, differently populated common legs.',
      'note': 'trusted: dense model; yastn legs_union/to_numpy(legs=) for the block contraction comparison'},
+    {'id': 'C04',
+     'technique': 'Hypothesis-generated tensors, bipartitions and options with gauge-invariant numerical oracles (reconstruction, isometry, ordering, triangularity, charge/leg placement)',
+     'text': 'svd/qr/eigh/eig on generated tensors (float and integer data incl. rank-deficient blocks, all symmetries, non-zero charge, '
+             'complex, lazily transposed, hard/meta fused) for random ordered bipartitions, sU/sQ, nU, U/V/Q/R axis positions and `which`; '
+             'only gauge-invariant clauses are asserted with tolerance 1e-11*||a||; a rejection by eig is accepted only when a dense '
+             'eigen-analysis shows a (near-)degenerate or ill-conditioned block.',
+     'note': 'trusted: yastn tensordot/transpose/to_numpy for forming U S V and the Gram matrices (covered by C01); NumPy/SciPy linear algebra'},
+    {'id': 'C13',
+     'technique': 'Hypothesis-generated spectra and limit combinations checked with a validity predicate derived from the documented two-stage rule; error identity on generated factorisations',
+     'text': 'Diagonal spectra with ties, zeros, one-element sectors over 1-5 sectors and every combination of D_total, D_block (scalar/dict), '
+             'tol, tol_block (scalar/dict): the mask must respect each limit, keep a top prefix per sector and the largest-weight multiset '
+             'overall (ties free); svd_/eigh_with_truncation: kept values valid, ||a-USV|| == ||discarded||, non-binding limits discard nothing.',
+     'note': 'trusted: the two-stage reference selection in checks/c13_truncation.py (same floating comparisons as documented); '
+             'truncate_multiplets, mask_f and which in (SM, SR) are outside the claim'},
     {'id': 'C19',
      'technique': 'exhaustive enumeration of the group law against an independent table + Hypothesis search over Leg arguments',
      'text': 'Every fuse()/add_charges() row in the stated charge box (complete for Z2/Z3 factors, |t|<=B for U(1)) for '
